@@ -374,4 +374,92 @@ def runOps {V B : Type} [DecidableEq V] (x : Exec V B) (c : Cache V B) : List (O
   | Op.call st :: rest => runOps x (callStep x c st).2 rest
   | Op.clear :: rest => runOps x [] rest
 
+/-! ## the executors' dictionaries as a state machine (several dictionaries, one probe)
+
+`MatrixDFTExecutor` keeps TWO dictionaries (`Ein`, `Eout`); `_setup_bases` probes only some of them in its `try:`, writes
+some of them on the `KeyError` path, the entry points index some of them afterwards, and `clear()` re-initialises some of
+them.  `Proto` records which (extracted from the source by the translator); the machine below executes exactly that
+protocol: a call returns, per dictionary it indexes, what the lookup gives (`none` = `KeyError` raised to the caller). -/
+
+structure Proto where
+  probe : List String        -- dictionaries indexed under the key in the `try:` of `_setup_bases`
+  missWrites : List String   -- dictionaries assigned under the key on the `KeyError` path
+  useReads : List String     -- dictionaries indexed under the key by the entry points after `_setup_bases(key)`
+  clearResets : List String  -- dictionaries re-initialised by `clear()`
+deriving DecidableEq, Repr
+
+def mdftProtoRef : Proto :=
+  { probe := ["Ein"], missWrites := ["Ein", "Eout"], useReads := ["Ein", "Eout"], clearResets := ["Ein", "Eout"] }
+def cztProtoRef : Proto :=
+  { probe := ["components"], missWrites := ["components"], useReads := ["components"], clearResets := ["components"] }
+
+/-- the protocol is sound: something is probed; whatever a call indexes is written on a miss; `clear()` either leaves every
+indexed dictionary alone or also forgets a probed one (so that the next call rebuilds) -/
+def Proto.WF (p : Proto) : Prop :=
+  p.probe ≠ [] ∧ (∀ d ∈ p.useReads, d ∈ p.missWrites) ∧
+  ((∀ d ∈ p.useReads, d ∉ p.clearResets) ∨ (∃ q ∈ p.probe, q ∈ p.clearResets))
+
+instance (p : Proto) : Decidable p.WF := by unfold Proto.WF; exact inferInstance
+
+structure Exec2 (V B : Type) where
+  keyFields : List String
+  buildReads : List String
+  build : String → List V → B      -- what the miss path stores in each dictionary
+  proto : Proto
+
+abbrev Dicts (V B : Type) := String → Cache V B
+
+def noDicts {V B : Type} : Dicts V B := fun _ => []
+
+def hasKey {V B : Type} [DecidableEq V] (c : Cache V B) (k : List V) : Bool := (lookup c k).isSome
+
+/-- `_setup_bases(key)`: when every probed dictionary has the key nothing happens, else the miss path stores under the key -/
+def setup2 {V B : Type} [DecidableEq V] (x : Exec2 V B) (s : Dicts V B) (st : St V) : Dicts V B :=
+  if x.proto.probe.all (fun p => hasKey (s p) (x.keyFields.map st)) then s
+  else fun d => if d ∈ x.proto.missWrites then (x.keyFields.map st, x.build d (x.buildReads.map st)) :: s d else s d
+
+/-- one call of an entry point: `_setup_bases(key)` then the lookups (`none` = `KeyError`) -/
+def callStep2 {V B : Type} [DecidableEq V] (x : Exec2 V B) (s : Dicts V B) (st : St V) : List (Option B) × Dicts V B :=
+  (x.proto.useReads.map (fun d => lookup (setup2 x s st d) (x.keyFields.map st)), setup2 x s st)
+
+def clear2 {V B : Type} (x : Exec2 V B) (s : Dicts V B) : Dicts V B :=
+  fun d => if d ∈ x.proto.clearResets then [] else s d
+
+def runOps2 {V B : Type} [DecidableEq V] (x : Exec2 V B) (s : Dicts V B) : List (Op V) → Dicts V B
+  | [] => s
+  | Op.call st :: rest => runOps2 x (callStep2 x s st).2 rest
+  | Op.clear :: rest => runOps2 x (clear2 x s) rest
+
+/-- number of distinct keys held by a dictionary (what `len(executor.Ein)` shows) -/
+def dictLen {V B : Type} [DecidableEq V] (c : Cache V B) : Nat := (c.map Prod.fst).eraseDups.length
+
+/-! ## `_key` / the head of `czt2`: how the argument FORMS are normalised before they enter the cache key -/
+
+/-- one parameter: `broadcast` = `if not isinstance(p, Iterable): p = (p, p)`; `conv` = the conversion applied to each element
+(`"float"`, `"int"`, or `"elem"`: elements as given) -/
+structure ArgNorm where
+  param : String
+  broadcast : Bool
+  conv : String
+deriving DecidableEq, Repr
+
+/-- an argument as the caller hands it over: one value, or a pair (tuple / list / array of two) -/
+inductive Arg (V : Type) where
+  | scalar (v : V)
+  | pair (a b : V)
+
+/-- the sampling an argument denotes: a scalar stands for both axes -/
+def Arg.den {V : Type} : Arg V → V × V
+  | .scalar v => (v, v)
+  | .pair a b => (a, b)
+
+/-- the normalised key component (`none`: a scalar that is not broadcast cannot be unpacked — `TypeError`) -/
+def normArg {V : Type} (conv : String → V → V) (a : ArgNorm) : Arg V → Option (V × V)
+  | .scalar v => if a.broadcast then some (conv a.conv v, conv a.conv v) else none
+  | .pair x y => some (conv a.conv x, conv a.conv y)
+
+def mdftKeyNormRef : List ArgNorm :=
+  [⟨"Q", true, "float"⟩, ⟨"samples_in", true, "int"⟩, ⟨"samples_out", true, "int"⟩, ⟨"shift", true, "elem"⟩]
+def cztKeyNormRef : List ArgNorm := [⟨"Q", true, "float"⟩, ⟨"samples_out", true, "int"⟩, ⟨"shift", true, "elem"⟩]
+
 end Model.C01
